@@ -6,7 +6,10 @@ package main
 import (
 	"bytes"
 	"fmt"
+	"io/ioutil"
+	"log"
 	"net"
+	"net/http"
 	"os"
 	"runtime"
 	"sort"
@@ -19,6 +22,8 @@ import (
 	. "verifharness/hlib"
 
 	erpc "github.com/henrylee2cn/erpc/v6"
+	ws "github.com/henrylee2cn/erpc/v6/mixer/websocket"
+	"github.com/henrylee2cn/erpc/v6/mixer/websocket/jsonSubProto"
 )
 
 // gate names; "hook" is the PostDial(isRedial=true) plugin body.
@@ -66,8 +71,18 @@ type world struct {
 	sess     erpc.Session
 	sessPtr  string
 	addr     string
-	lis      *Listener
-	allLis   []*Listener
+	lis      srvLis
+	allLis   []srvLis
+
+	// what the client's PostDial plugins do to the socket at every dial (first dial and redial):
+	// "" nothing | nop: ModifySocket returning (nil, nil) | wrap: a transparent wrapper conn |
+	// wrapp: wrapper conn + the session's ProtoFunc again | ren: a wrapper whose LocalAddr /
+	// RemoteAddr are renamed (as a websocket conn does) | ws: the shipped websocket mixer
+	// (client plugin upgrades the connection through ModifySocket, http server side)
+	mod      string
+	modFirst bool   // the socket-modifying plugin runs before (true) / after the verdict plugin
+	firstID  string // Session.ID() right after Dial, before any SetID
+	tcpAccepts int  // ws: connections accepted by the harness-owned TCP listener
 
 	park   map[string]bool
 	byGid  map[int64]*actor
@@ -209,6 +224,111 @@ func (p *srvPlugin) PostAccept(sess erpc.PreSession) *erpc.Status {
 	return nil
 }
 
+// ---- PostDial plugins that replace the session's socket through Session.ModifySocket ----
+
+type wrapConn struct{ net.Conn }
+
+type fakeAddr struct{ network, s string }
+
+func (a fakeAddr) Network() string { return a.network }
+func (a fakeAddr) String() string  { return a.s }
+
+// renConn reports renamed addresses, as the websocket conn does (ws://host:port/path).
+type renConn struct {
+	net.Conn
+	l, r fakeAddr
+}
+
+func (c *renConn) LocalAddr() net.Addr  { return c.l }
+func (c *renConn) RemoteAddr() net.Addr { return c.r }
+
+type modPlugin struct {
+	w    *world
+	kind string
+}
+
+func (p *modPlugin) Name() string { return "c13-mod" }
+func (p *modPlugin) PostDial(sess erpc.PreSession, isRedial bool) *erpc.Status {
+	sess.ModifySocket(func(conn net.Conn) (net.Conn, erpc.ProtoFunc) {
+		switch p.kind {
+		case "wrap":
+			return &wrapConn{conn}, nil
+		case "wrapp":
+			return &wrapConn{conn}, sess.GetProtoFunc()
+		case "ren":
+			return &renConn{Conn: conn,
+				l: fakeAddr{conn.LocalAddr().Network(), "wrap://" + conn.LocalAddr().String() + "/x"},
+				r: fakeAddr{conn.RemoteAddr().Network(), "wrap://" + conn.RemoteAddr().String() + "/x"}}, nil
+		}
+		return nil, nil // nop
+	})
+	return nil
+}
+
+func renames(mod string) bool { return mod == "ren" || mod == "ws" }
+
+// ---- the server side of a websocket session: the mixer's handler on an http server whose
+// TCP listener the harness owns ----
+
+type srvLis interface {
+	Close()
+	KillConns()
+}
+
+type wsListener struct {
+	w     *world
+	lis   net.Listener
+	addr  string
+	mu    sync.Mutex
+	conns []net.Conn
+}
+
+func (l *wsListener) Accept() (net.Conn, error) {
+	c, err := l.lis.Accept()
+	if err == nil {
+		l.mu.Lock()
+		l.conns = append(l.conns, c)
+		l.mu.Unlock()
+		l.w.mu.Lock()
+		l.w.tcpAccepts++
+		l.w.mu.Unlock()
+	}
+	return c, err
+}
+func (l *wsListener) Addr() net.Addr { return l.lis.Addr() }
+func (l *wsListener) Close() error   { return l.lis.Close() }
+
+type wsLis struct{ l *wsListener }
+
+func (x wsLis) Close() { x.l.lis.Close() }
+func (x wsLis) KillConns() {
+	x.l.mu.Lock()
+	for _, c := range x.l.conns {
+		c.Close()
+	}
+	x.l.conns = nil
+	x.l.mu.Unlock()
+}
+
+func (w *world) listen(addr string) (srvLis, string, error) {
+	if w.mod != "ws" {
+		l, err := Listen(w.srv, addr)
+		if err != nil {
+			return nil, "", err
+		}
+		return l, l.Addr, nil
+	}
+	raw, err := net.Listen("tcp", addr)
+	if err != nil {
+		return nil, "", err
+	}
+	l := &wsListener{w: w, lis: raw, addr: raw.Addr().String()}
+	mux := http.NewServeMux()
+	mux.Handle("/ws", ws.NewJSONServeHandler(w.srv, nil))
+	go (&http.Server{Handler: mux, ErrorLog: log.New(ioutil.Discard, "", 0)}).Serve(l)
+	return wsLis{l}, l.addr, nil
+}
+
 // ---- server handlers ----
 
 func echo(ctx erpc.CallCtx, arg *string) (string, *erpc.Status) { return *arg, nil }
@@ -288,10 +408,11 @@ func (w *world) waitSaturated() {
 
 func (w *world) setUp(up bool) {
 	if up && w.lis == nil {
-		var l *Listener
+		var l srvLis
+		var a string
 		var err error
 		for i := 0; i < 200; i++ {
-			l, err = Listen(w.srv, w.addr)
+			l, a, err = w.listen(w.addr)
 			if err == nil {
 				break
 			}
@@ -299,7 +420,7 @@ func (w *world) setUp(up bool) {
 		}
 		Must(err)
 		w.lis = l
-		w.addr = l.Addr
+		w.addr = a
 		w.allLis = append(w.allLis, l)
 	} else if !up && w.lis != nil {
 		w.lis.Close()
@@ -712,9 +833,9 @@ func (w *world) settle(afterCut bool, prev map[string]string) map[string]string 
 
 // ---- set-up / tear-down ----
 
-func newWorld(budget int32, uid bool, park []string, plan []byte, pdef byte) *world {
+func newWorld(budget int32, uid bool, park []string, plan []byte, pdef byte, mod string, modFirst bool) *world {
 	w := &world{budget: budget, park: map[string]bool{gRead: true, gLocked: true}, byGid: map[int64]*actor{},
-		plan: plan, pdef: pdef, curVerdict: 'a', holdCh: make(chan struct{})}
+		plan: plan, pdef: pdef, curVerdict: 'a', holdCh: make(chan struct{}), mod: mod, modFirst: modFirst}
 	for _, p := range park {
 		w.park[p] = true
 	}
@@ -724,9 +845,10 @@ func newWorld(budget int32, uid bool, park []string, plan []byte, pdef byte) *wo
 	for i := 0; ; i++ {
 		portSeq++
 		w.addr = fmt.Sprintf("127.0.0.1:%d", 10000+(os.Getpid()*131+portSeq*17)%20000)
-		l, err := Listen(w.srv, w.addr)
+		l, a, err := w.listen(w.addr)
 		if err == nil {
 			w.lis = l
+			w.addr = a
 			w.allLis = append(w.allLis, l)
 			break
 		}
@@ -734,15 +856,31 @@ func newWorld(budget int32, uid bool, park []string, plan []byte, pdef byte) *wo
 			Must(err)
 		}
 	}
-	w.cli = erpc.NewPeer(erpc.PeerConfig{RedialTimes: budget, RedialInterval: time.Millisecond, DialTimeout: 2 * time.Second}, &cliPlugin{w})
+	// the client's global plugins, in the order in which postDial runs them
+	plugins := []erpc.Plugin{&cliPlugin{w}}
+	var protos []erpc.ProtoFunc
+	if mod != "" {
+		var mp erpc.Plugin = &modPlugin{w, mod}
+		if mod == "ws" {
+			mp = ws.NewDialPlugin("/ws")
+			protos = []erpc.ProtoFunc{jsonSubProto.NewJSONSubProtoFunc()}
+		}
+		if modFirst {
+			plugins = []erpc.Plugin{mp, plugins[0]}
+		} else {
+			plugins = append(plugins, mp)
+		}
+	}
+	w.cli = erpc.NewPeer(erpc.PeerConfig{RedialTimes: budget, RedialInterval: time.Millisecond, DialTimeout: 2 * time.Second}, plugins...)
 	curWorld.Store(w)
-	sess, stat := w.cli.Dial(w.addr)
+	sess, stat := w.cli.Dial(w.addr, protos...)
 	if !stat.OK() {
 		Must(fmt.Errorf("initial dial failed: %v", stat))
 	}
 	w.mu.Lock()
 	w.sess = sess
 	w.sessPtr = fmt.Sprintf("%p", sess)
+	w.firstID = sess.ID()
 	w.mu.Unlock()
 	if uid {
 		sess.SetID("me")
@@ -800,3 +938,13 @@ func (w *world) teardown() {
 }
 
 var _ = net.Dial
+
+// accepted: connections the server side accepted (w.mu held). With the websocket mixer the
+// count is taken at the TCP listener: an attempt whose verdict plugin rejects before the upgrade
+// never reaches the server peer's PostAccept.
+func (w *world) accepted() int {
+	if w.mod == "ws" {
+		return w.tcpAccepts
+	}
+	return w.accepts
+}
